@@ -338,11 +338,18 @@ def run_c10(tier, seed):
     WIDTHS = [0, 9, 10, 99, 100, 1000, 99999999, 100000000, 123456789, 999999999, 1000000000, 4294967295, 4294967296,
               10 ** 12, 2 ** 63, 10 ** 19 + 1]
     groups = list(itertools.combinations(WIDTHS, 2 if tier == 'quick' else 3))
+
+    def spell(n, k):
+        """the same number as Python's int() also accepts it: padded, signed, pretty-printed, with digit separators"""
+        s = str(n)
+        forms = [s, s, ' ' + s + ' ', '+' + s, '\n      ' + s + '\n    ', '00' + s, (s[:-3] + '_' + s[-3:]) if len(s) > 3 else s, s]
+        return forms[k % len(forms)]
+
     for gi, grp in enumerate(groups):
-        create_id = -1
-        docs = [TJ.to_text(B.ro_doc([B.story('A')], message_id=str(max(0, min(grp) - 1)) if min(grp) > 0 else '0'))]
-        ids_ = [i for i in grp if str(i) != TJ.child_text(TJ.parse(docs[0]), 'messageID')]
-        docs += [TJ.to_text(B.story_append([B.story(f'N{i}')], message_id=str(i))) for i in ids_]
+        # the roCreate sits in the middle (message ID 5 is in no group), every group member is a message
+        docs = [TJ.to_text(B.ro_doc([B.story('A')], message_id=spell(5, gi)))]
+        ids_ = list(grp)
+        docs += [TJ.to_text(B.story_append([B.story(f'N{i}')], message_id=spell(i, gi + k))) for k, i in enumerate(ids_)]
         expect_ids = sorted(ids_)
         for pi, perm in enumerate(itertools.permutations(range(len(docs)))):
             pdocs = [docs[i] for i in perm]
@@ -387,6 +394,12 @@ def collection_stages(docs, strict):
         except Exception as e:  # noqa: BLE001
             out['merge_err'] = impl.err_name(e)
         out['after'] = {'completed': bool(mc.completed), 'record': has_record(mc.ro), 'ro_completed': bool(mc.ro.completed)}
+        # what adding the messages one by one gives: everything after the roDelete is refused and changes nothing
+        try:
+            hf = hand_fold(docs, strict)
+            out['same_as_one_by_one'] = (str(mc.ro) == hf['text'])
+        except Exception:  # noqa: BLE001
+            out['same_as_one_by_one'] = None
         create_text = next(t for t in docs if TJ.find(TJ.parse(t), 'roCreate') is not None)
         fresh = impl.load(create_text)
         try:
@@ -413,6 +426,9 @@ def stage_problems(pid, st):
             if st[k]['completed'] != st[k]['record']:
                 bad.append(f"{k} the merge the collection reports completed={st[k]['completed']} but its running order "
                            f"{'has' if st[k]['record'] else 'has no'} completion record")
+        if st.get('same_as_one_by_one') is False:
+            bad.append('the collection merge differs from adding the messages one by one in message-ID order '
+                       '(messages after the roDelete must be refused and change nothing)')
         sec = st['second']
         if 'invalid' not in sec and not sec['fresh_record']:
             if sec['completed'] or sec['record']:
